@@ -545,7 +545,7 @@ class CallMixin:
         if short == "list":
             return [("val", st.alloc("list", {"__kind__": "list", "items": tuple(self.concrete_items(args[0], st)) if args else ()}), st)]
         if short == "set":
-            return [("val", st.alloc("set", {"__kind__": "set", "items": tuple(self.concrete_items(args[0], st)) if args else ()}), st)]
+            return [("val", st.alloc("set", {"__kind__": "set", "items": self.set_items(self.concrete_items(args[0], st), st) if args else ()}), st)]
         if short == "dict":
             if len(args) == 1 and not kwargs and isinstance(args[0], Ref) and st.get(args[0]).get("__kind__") in self.container_models:
                 return self.container_models[st.get(args[0])["__kind__"]].method(self, st, args[0], "copy", [], {})  # dict(m): a snapshot with the same content
@@ -578,7 +578,17 @@ class CallMixin:
         if short == "zip":
             return [("val", tuple(zip(*[self.concrete_items(a, st) for a in args])), st)]
         if short == "callable":
-            return [("val", isinstance(strip_opt(args[0]), (FuncRef, OpaqueFn, ClassRef, BoundExt)), st)]
+            a0 = self.unopt(st, args[0])
+            if isinstance(a0, Opt):
+                inner = isinstance(a0.val, (FuncRef, OpaqueFn, ClassRef, BoundExt))
+                return [("val", Sym("bool", simp(z3.Not(a0.none))) if inner else False, st)]
+            if isinstance(a0, ExtRef):
+                if a0.name in self.BUILTIN_NAMES:
+                    return [("val", True, st)]
+                raise Unsupported(f"callable({a0.name})")
+            if isinstance(a0, Ref) and isinstance(a0.cls, ClassInfo) and a0.cls.find_method("__call__") is not None:
+                return [("val", True, st)]
+            return [("val", isinstance(a0, (FuncRef, OpaqueFn, ClassRef, BoundExt)), st)]
         if short == "time.time":
             return [("val", self.now(st), st)]
         if short in ("datetime.datetime.now", "datetime.now"):
